@@ -315,6 +315,19 @@ def float_roundtrip(rng, tier):
                     fails.append(dict(clause='log_of_a_mixed_batch_is_itemwise', signature=f'{g}/{str(dtype).split(".")[-1]}', order=order,
                                       err=float((Lb - single[order]).abs().nan_to_num(nan=1e9).max())))
                     break
+            # batches whose extents coincide with the vector length (3, 3x3, 4): Inv and Log(Inv X) = -Log X are item-wise there too
+            for idx in ([2, 0, 5], [[2, 0, 5], [1, 5, 2], [0, 2, 1]], [5, 2, 0, 1]):
+                Xs = X[torch.tensor(idx)]; flat = torch.tensor(idx).reshape(-1).tolist()
+                try:
+                    Ib = Xs.Inv(); Lb = Ib.Log().tensor(); evals += 1
+                except Exception as e:
+                    fails.append(dict(clause='inverse_of_a_batch_raises', signature=f'{g}/{str(dtype).split(".")[-1]}', error=f'{type(e).__name__}: {e}'[:140])); break
+                Ii = torch.stack([X[i].Inv().tensor() for i in flat], 0).reshape(Ib.tensor().shape)
+                Li = torch.stack([X[i].Log().tensor() for i in flat], 0).reshape(Lb.shape)
+                if not torch.allclose(Ib.tensor(), Ii, atol=64 * eps, rtol=64 * eps):
+                    fails.append(dict(clause='inverse_of_a_batch_is_itemwise', signature=f'{g}/{str(dtype).split(".")[-1]}', lshape=list(Ib.lshape), err=float((Ib.tensor() - Ii).abs().max())))
+                elif not torch.allclose(Lb, -Li, atol=4096 * eps, rtol=4096 * eps):
+                    fails.append(dict(clause='log_of_inverse_is_minus_log', signature=f'{g}/{str(dtype).split(".")[-1]}/batch', lshape=list(Ib.lshape), err=float((Lb + Li).abs().max())))
     best = {}
     for f in fails:
         kk = (f['clause'], f['signature'])
